@@ -471,8 +471,29 @@ fn subsets(names: &[String]) -> Vec<Vec<String>> {
     (0..(1u32 << names.len())).map(|m| names.iter().enumerate().filter(|(i, _)| m >> i & 1 == 1).map(|(_, n)| n.clone()).collect()).collect()
 }
 
+/// every (device, function) pair — and every bus in the thorough tier — through each place the
+/// crate packs a PCI bus/device/function: a finite domain, enumerated rather than sampled
+fn gen_bdf_exhaustive(thorough: bool, emit: &mut dyn FnMut(String)) {
+    let buses: Vec<u64> = if thorough { (0..256).collect() } else { vec![0, 0x5a, 0x80, 0xff] };
+    for &bus in &buses {
+        for dev in 0..32u64 {
+            for fun in 0..8u64 {
+                emit(format!("pciiommu/{},{},{},{}/-/-/-", 0x1234, bus, dev, fun));
+                emit(format!("iommu/{},0,{},1,{},{},{},{},0,0,0/-/-/-", 7, 0x8000_0000u64, 0xbeef, bus, dev, fun));
+                emit(format!("gi/{},1,{},{},{},{}/-/-/en", 3, 0xa55a, bus, dev, fun));
+                emit(format!("aerdev/0,1,{},{},{}/-/-/-", bus, dev, fun));
+                if bus == 0x5a || thorough {
+                    emit(format!("aerrp/0,1,{},{},{}/-/-/-", bus, dev, fun));
+                    emit(format!("aerbr/0,1,{},{},{}/-/-/-", bus, dev, fun));
+                }
+            }
+        }
+    }
+}
+
 pub fn gen_ent(r: &mut Rng, tier: &str, emit: &mut dyn FnMut(String)) {
     let thorough = tier == "thorough";
+    gen_bdf_exhaustive(thorough, emit);
     let standalone = ["lapic", "ioapic", "gicc", "gicd", "gicmsi", "gicr", "its", "rintc", "imsic", "aplic", "plic", "mem", "gi",
         "rintcaff", "mpd", "loc", "msc", "cache", "isa", "cmo", "mmu", "iommu", "pcierc", "platform", "pciiommu", "mmioiommu",
         "chbs", "cfmws", "cxims", "rdpas", "aerrp", "aerdev", "aerbr", "ghes", "ghesv2", "notif", "ges", "ged",
